@@ -175,6 +175,16 @@ func (m *vModel) AddGrant(s Sched) {
 // UnvestedIncl is Unvested under the other reading of the one instant the
 // statement leaves open: an event whose period ends exactly at its grant's start
 // (zero-length period) read exactly at that start counts as released.
+func (m *vModel) UnvestedInclD(t int64, d string) *big.Int {
+	s := new(big.Int)
+	for _, ev := range m.Vest {
+		if t >= ev.T && ev.denom() == d {
+			s.Add(s, ev.A)
+		}
+	}
+	return new(big.Int).Sub(m.OriginalD(d), s)
+}
+
 func (m *vModel) UnvestedIncl(t int64) *big.Int {
 	s := new(big.Int)
 	for _, ev := range m.Vest {
